@@ -353,6 +353,39 @@ pub fn run(tier: Tier) -> i32 {
         lines.push(format!("0 {} {}", tok, corpus[42]));
         lines.push(format!("{} {} {}", tok, tok, corpus[42]));
     }
+    // long bad lines made of multi-byte characters: whatever byte position an error path cuts, quotes or scans
+    // to, some line has a character straddling it (pad unit = 2-, 3- and 4-byte character, 9 bytes; ASCII
+    // shifts 0..9 cover every phase), in every token position of every line shape (1, 2, 3 tokens)
+    let mut long_bad = 0u64;
+    {
+        let lab = &corpus[42];
+        let cut_lab = lab.split("/K:").next().unwrap();
+        let lens: &[usize] = if tier == Tier::Quick { &[40, 64, 128, 256, 512, 1024, 4096] } else { &[16, 32, 40, 64, 80, 100, 128, 200, 256, 300, 512, 1000, 1024, 2048, 4096, 8192, 65536] };
+        for &len in lens {
+            for shift in 0..9usize {
+                let mut pad = "x".repeat(shift);
+                while pad.len() < len + 9 {
+                    pad.push_str("\u{e9}\u{3042}\u{2000b}");
+                }
+                for l in [
+                    format!("{}{}", cut_lab, pad),
+                    pad.clone(),
+                    format!("3000000 {}{}", cut_lab, pad),
+                    format!("3000000 {}{}", lab, pad),
+                    format!("{} {}", pad, lab),
+                    format!("{} {}", pad, pad),
+                    format!("0 {} {}", pad, lab),
+                    format!("{} 3000000 {}", pad, lab),
+                    format!("0 3000000 {}{}", cut_lab, pad),
+                    format!("0 3000000 {}", pad),
+                    format!("{}0 3000000 {}", pad, lab),
+                ] {
+                    lines.push(l);
+                    long_bad += 1;
+                }
+            }
+        }
+    }
     if tier == Tier::Thorough {
         let b = &bases[1];
         let win: Vec<usize> = (0..40).collect();
@@ -443,7 +476,7 @@ pub fn run(tier: Tier) -> i32 {
         }
     }
     rep.distinct_many(lines.iter().map(|l| fnv(l.as_bytes())));
-    rep.note("bounds", json!({"form_cases": form_cases.load(Ordering::Relaxed), "corrupted_lines": lines.len(), "fault_alphabet": alphabet.len(), "certainly_ill_formed": must_err.load(Ordering::Relaxed), "accepted(x2 alignment)": ok_count.load(Ordering::Relaxed), "rejected(x2 alignment)": err_count.load(Ordering::Relaxed)}));
+    rep.note("bounds", json!({"form_cases": form_cases.load(Ordering::Relaxed), "corrupted_lines": lines.len(), "long_multibyte_bad_lines": long_bad, "fault_alphabet": alphabet.len(), "certainly_ill_formed": must_err.load(Ordering::Relaxed), "accepted(x2 alignment)": ok_count.load(Ordering::Relaxed), "rejected(x2 alignment)": err_count.load(Ordering::Relaxed)}));
     rep.sample(json!({"line": lines[lines.len() / 3]}));
     rep.sample(json!({"line": lines[lines.len() / 2]}));
     rep.sample_last(json!({"line": lines.last()}));
